@@ -79,6 +79,10 @@ func init() {
 				ioutil.WriteFile(p, []byte(content), 0644)
 				os.MkdirAll(filepath.Join(dst, name), 0755)
 				ioutil.WriteFile(filepath.Join(dst, name, "x"), []byte("x"), 0644)
+			case "linkrel":
+				// the referenced file is a symbolic link with a RELATIVE target beside it (uscan-style orig tarball links)
+				ioutil.WriteFile(filepath.Join(src, "real-"+name), []byte(content), 0644)
+				os.Symlink("real-"+name, p)
 			case "occupied":
 				// the destination already holds a LONGER regular file of that name: it must be replaced, not patched
 				ioutil.WriteFile(p, []byte(content), 0644)
